@@ -201,6 +201,12 @@ def rule_table_names():
     return list(policy.AttributePolicy(contents.ProtocolVersion(2, 0))._attribute_rule_sets.keys())
 
 
+def rule_table_multivalued(name):
+    from kmip.services.server import policy
+    from kmip.core.messages import contents
+    return policy.AttributePolicy(contents.ProtocolVersion(2, 0))._attribute_rule_sets[name].multiple_instances_permitted
+
+
 ANY_VALUE_2_0 = ('oneof',) + tuple(BY_TAG[n] for n in sorted(BY_TAG))
 CURRENT = lambda k: ('obj', 'kmip.core.objects.CurrentAttribute', {'_attribute': k})      # noqa: E731
 NEW = lambda k: ('obj', 'kmip.core.objects.NewAttribute', {'_attribute': k})                # noqa: E731
@@ -641,13 +647,19 @@ SET_PAIRS = ('oneof',
              ('tuple', ('const', 'Object Group'), ('list', TEXT, (0, 1, 2))),
              ('tuple', ('const', 'Cryptographic Parameters'), ('list', TEXT, (0, 1))),
              ('tuple', ('const', 'Cryptographic Algorithm'), AVAL(('enum', 'kmip.core.enums.CryptographicAlgorithm'))),
-             ('tuple', ('const', 'Cryptographic Length'), AVAL('nat')),
+             ('tuple', ('const', 'Cryptographic Length'), AVAL('int')),
              ('tuple', ('const', 'Cryptographic Usage Mask'), AVAL(MASKS)),
              ('tuple', ('const', 'Operation Policy Name'), AVAL('str')),
              ('tuple', ('const', 'Sensitive'), AVAL('bool')),
              ('tuple', ('const', 'State'), AVAL(('enum', 'kmip.core.enums.State'))),
              ('tuple', ('const', 'Contact Information'), AVAL('str')),
              ('tuple', ('const', 'Activation Date'), AVAL('nat')))
+# every other name of the rule table (all of them end in InvalidField "unsupported"): the value is
+# whatever the decoder produced, a list of them for the multivalued ones
+_COVERED = set(p[1][1] for p in SET_PAIRS[1:])
+SET_PAIRS = SET_PAIRS + tuple(
+    ('tuple', ('const', n), ('list', 'opaque', (0, 1)) if rule_table_multivalued(n) else AVAL('opaque'))
+    for n in sorted(set(rule_table_names()) - _COVERED))
 
 
 def t_new_rows_only(ev, outcome, exc, path, I):
@@ -714,6 +726,8 @@ c.modifies("managed_object.names", "managed_object.app_specific_info", "managed_
            "managed_object.sensitive")
 c.bounded_note = ("collections and value lists of 0..2 symbolic instances; five sample usage masks "
                   "(the mask loop is unrolled over the enumeration)")
+c.max_paths = 20000
+c.split_by = [('oneof:attribute', len(SET_PAIRS) - 1)]
 
 # ---------------------------------------------------------------- the attribute rule table
 AP = "kmip.services.server.policy.AttributePolicy."
@@ -733,3 +747,79 @@ for fname in ("is_attribute_modifiable_by_client", "is_attribute_deletable_by_cl
     c.ensures("not result or attribute not in PROTECTED", name="protected-attributes-are-not-client-writable")
     c.returns('bool')
     c.inlined()        # call sites run the two-line body on the concrete table
+
+
+# ---------------------------------------------------------------- SetAttribute without any bound
+# SetAttribute (KMIP 2.0) only ever succeeds on single-valued attributes; with the multivalued
+# collections of the stored object left as lists of unknown length (no instance is enumerated) the
+# same clauses are proved without the bound the other attribute contracts carry.
+c = contract(E + "_process_set_attribute", variant="any-collections").props('C15', 'C08', 'C09', 'C13')
+c.args(self=ENGINE, payload=SET_PAYLOAD)
+c.let('__self__', 'self').let('__payload__', 'payload')
+c.use_variant("attribute-operation")
+c.raises(KMIP_ERRORS)
+c.scope('raises.unexpected', 'C13')
+c.trace("protected-attributes-never-written", t_protected)
+c.trace("no-effect-before-raise", t_no_effect_before_raise)
+c.trace("single-transaction", t_single_transaction)
+c.trace("access-controlled", make_access_predicate(['SET_ATTRIBUTE']))
+c.trace("sets-exactly-what-is-addressed", t_set_exact)
+c.scope('trace.sets', 'C15')
+c.scope('trace.protected', 'C15')
+c.max_paths = 20000
+c.split_by = [('protocol-version', 6), ('managed-class', N_STORED_CLASSES)]
+
+# ModifyAttribute / DeleteAttribute addressed at any attribute OTHER than the three stored
+# multivalued ones: again no instance of a collection is enumerated, so these run without a bound.
+_MULTI = set(COLLECTION_OF)
+_SINGLE_1X = ('oneof',) + tuple(_attribute_1x(n, BY_NAME[n]) for n in sorted(BY_NAME) if n not in _MULTI) + \
+    ((_attribute_1x('x-custom', _custom),) if _custom else ())
+_SINGLE_2_0 = ('oneof',) + tuple(BY_TAG[n] for n in sorted(BY_TAG) if n not in _MULTI)
+_SINGLE_NAMES = ('oneof',) + tuple(k for k in FREE_NAMES[1:] if k[1] not in _MULTI)
+
+
+def _current_single(I, payload):
+    from kmip.core import enums
+    new = I.resolve_opt(I.getattr(I.resolve_opt(I.getattr(payload, '_new_attribute')), '_attribute'))
+    same = enums.convert_attribute_tag_to_name(new.fields['tag'])
+    return ('opt', CURRENT(('oneof', BY_TAG[same], BY_TAG['State'] if same != 'State' else BY_TAG['Sensitive'])))
+
+
+MOD_SINGLE = ('payload', PL + 'modify_attribute.ModifyAttributeRequestPayload', {
+    '_unique_identifier': ('lazyopt', TEXT), '_attribute': ('lazy', _SINGLE_1X),
+    '_current_attribute': ('lazy', lambda I, payload: _current_single(I, payload)),
+    '_new_attribute': ('lazy', NEW(_SINGLE_2_0))})
+DEL_SINGLE = ('payload', PL + 'delete_attribute.DeleteAttributeRequestPayload', {
+    '_unique_identifier': ('lazyopt', TEXT),
+    '_attribute_name': ('lazy', ('opt', ('obj', 'kmip.core.primitives.TextString', {'value': _SINGLE_NAMES}))),
+    '_attribute_index': ('lazy', ('opt', INT)),
+    '_current_attribute': ('lazy', ('opt', CURRENT(_SINGLE_2_0))),
+    '_attribute_reference': ('lazy', ('opt', ('obj', 'kmip.core.objects.AttributeReference',
+                                             {'_vendor_identification': ('opt', TEXT),
+                                              '_attribute_name': ('obj', 'kmip.core.primitives.TextString',
+                                                                  {'value': _SINGLE_NAMES})})))})
+for hname, pkind, op, pred, pname in [
+        ("_process_modify_attribute", MOD_SINGLE, 'MODIFY_ATTRIBUTE', t_modify_exact, "modifies-exactly-what-is-addressed"),
+        ("_process_delete_attribute", DEL_SINGLE, 'DELETE_ATTRIBUTE', t_delete_exact, "removes-exactly-what-is-addressed")]:
+    c = contract(E + hname, variant="single-valued-any-collections").props('C15', 'C08', 'C09', 'C13')
+    c.args(self=ENGINE, payload=pkind)
+    c.let('__self__', 'self').let('__payload__', 'payload')
+    c.use_variant("attribute-operation")
+    c.raises(KMIP_ERRORS)
+    c.scope('raises.unexpected', 'C13')
+    c.trace("protected-attributes-never-written", t_protected)
+    c.trace("no-effect-before-raise", t_no_effect_before_raise)
+    c.trace("single-transaction", t_single_transaction)
+    c.trace("access-controlled", make_access_predicate([op]))
+    c.trace(pname, pred)
+    c.scope('trace.' + pname.split('-')[0], 'C15')
+    c.scope('trace.protected', 'C15')
+    c.max_paths = 20000
+    c.split_by = [('protocol-version', 6), ('managed-class', N_STORED_CLASSES)]
+
+_c = contract(E + "_process_delete_attribute", variant="single-valued-any-collections")
+_c.never_returns = True        # nothing but the three stored multivalued attributes can be deleted
+_c.trace("single-valued-attributes-cannot-be-deleted",
+         lambda ev, outcome, exc: True if outcome != 'return'
+         else "DeleteAttribute succeeded on an attribute that is not one of the deletable multivalued ones")
+_c.scope('trace.single-valued', 'C15')
